@@ -148,7 +148,7 @@ def _rot3_state(angle):
     return out
 
 
-def compare_states(what, got, ref, dts, rate=0.0, kind="state-differs", extra_pos=0.0, extra_vel=None, **data):
+def compare_states(what, got, ref, dts, rate=0.0, kind="state-differs", extra_pos=0.0, extra_vel=None, mu=None, **data):
     """got / ref: 6-vectors in metres; dts = time resolution (s) granted to the comparison."""
     got = np.asarray(got, float)
     ref = np.asarray(ref, float)
@@ -156,7 +156,7 @@ def compare_states(what, got, ref, dts, rate=0.0, kind="state-differs", extra_po
         raise Violation("non-finite", f"{what}: {got.tolist()} vs {ref.tolist()}")
     r = float(np.linalg.norm(ref[:3]))
     v = float(np.linalg.norm(ref[3:]))
-    acc = MU_E / max(r, 6.0e6) ** 2
+    acc = (MU_E / max(r, 6.0e6) ** 2) if mu is None else mu / max(r, 1.0) ** 2
     dts = dts + 1e-10
     tol_p = 1e-6 + 1e-12 * r + (v + rate * r) * dts + extra_pos
     tol_v = 1e-9 + 1e-12 * v + (acc + rate * v + rate * rate * r) * dts + (extra_pos * 1.2e-3 if extra_vel is None else extra_vel)
@@ -369,8 +369,14 @@ def check_prop(case):
         extra_vel = (2 * extra + 2 * vbody * drift) / (2 * half) + 1e-9
     worst = 0.0
     for k, ((g, gdate, want), (r, rdate, _)) in enumerate(zip(got, ref)):
+        if kind.startswith("keplernum"):
+            # the numerical propagator interpolates its steps on float MJD abscissae (one ulp = 0.63 us): the
+            # nodes built from another label's clock may differ by that ulp
+            extra = max(extra, float(np.linalg.norm(r[3:])) * 1.5e-6)
         worst = max(worst, compare_states(f"{desc} [{k}]", g, r, dts, kind=f"{kind}-label-dependent", extra_pos=extra,
-                                          extra_vel=extra_vel))
+                                          extra_vel=extra_vel if not kind.startswith("keplernum") else
+                                          (MU_E / max(float(np.linalg.norm(r[:3])), 6e6) ** 2) * 1.5e-6 + 1e-9,
+                                          mu=go.MU[case["body"]] if kind == "kepler-other-body" else None))
         same_instant(f"{desc} [{k}]", gdate, rdate, labels)
     cls = [f"kind:{kind}", f"eop:{t3.cfg()}", f"X:{X}", f"Y:{Y}", f"arg:{case['arg']}"] + clone_classes(case)
     if straddle(us, (Y,)) or straddle(us + dt, (X,)):
@@ -484,7 +490,11 @@ def check_frames(case):
             except Violation:
                 continue
         if ratio is None:
-            if (src in ROTATING and dst in ROTATING) or dst.startswith("station:"):
+            if dst.startswith("station:"):
+                ratio = compare_states(what, g, r, dts, rate=rate, kind="frame-label-dependent",
+                                       extra_pos=extra_pos + OMEGA_E * rr * 1.5 * JD_QUANTUM,
+                                       extra_vel=extra_vel + OMEGA_E * vv * 1.5 * JD_QUANTUM, src=src, dst=dst)
+            elif src in ROTATING and dst in ROTATING:
                 # both ends turn (GMST and ERA from the same Julian date): the quanta cancel to the
                 # difference of the two rates; only the loose bound is available here
                 ratio = compare_states(what, g, r, dts + 1.5 * JD_QUANTUM * 3e-3, rate=rate,
